@@ -16,11 +16,11 @@ CHECKS = {
    note="Type and constant inventory comes from go/types on types.go; the regeneration driver is added by build overlay (nothing written to /repo).",
    technique="exhaustive input enumeration + regeneration (translation) comparison", ref="3 C20"),
  "C08": dict(level="model_checking",
-   text="Explicit exploration of call histories: every sequence up to the bound over a 28-call pool chosen to collide on package-level state (incl. near-twin inputs that differ only in a detail a lossy cache key would conflate), each history executed in its own fresh process; every position must return what the same call returns when made first in a fresh process, and solo calls are repeated across processes (Encode determinism). Behavioural states (vectors of one-step futures) are counted: a pure implementation has exactly one.",
+   text="Explicit exploration of call histories: every sequence up to the bound over a 30-call pool chosen to collide on package-level state (incl. near-twin inputs that differ only in a detail a lossy cache key would conflate), each history executed in its own fresh process; every position must return what the same call returns when made first in a fresh process, and solo calls are repeated across processes (Encode determinism). Behavioural states (vectors of one-step futures) are counted: a pure implementation has exactly one.",
    note="Fresh-process baseline means no in-process reset has to be trusted. The package-level distance accumulator (listed finding) is shadowed and attributed exactly. Map-iteration nondeterminism is observed through repeated fresh-process runs, not enumerated.",
    technique="explicit-state exploration of call histories with a fresh-process differential oracle", ref="3 C08"),
  "C09": dict(level="model_checking",
-   text="Stateless schedule exploration on the real code under a cooperative scheduler with iterative preemption bounding. Scheduling points: (1) every Read/Write on harness-owned readers/writers (reads cut at record boundaries; the decoding calls again at byte granularity) for all unordered pairs of the 28 pool calls plus 3-thread and 2-calls-per-thread scenarios; (2) every access to a mutable package-level variable, through a build overlay generated from the current tree by tools in harness/cmd/vinstr (nothing written to /repo), each scenario in a fresh process, with an access-conflict oracle (variable written and touched by both goroutines, no locks in the package). Each thread must return its solo result under every schedule. A separate free-running pass of the same bodies under the Go race detector classifies every report by function signature.",
+   text="Stateless schedule exploration on the real code under a cooperative scheduler with iterative preemption bounding. Scheduling points: (1) every Read/Write on harness-owned readers/writers (reads cut at record boundaries; the decoding calls again at byte granularity) for all unordered pairs of the 30 pool calls plus 3-thread and 2-calls-per-thread scenarios; (2) every access to a mutable package-level variable, through a build overlay generated from the current tree by tools in harness/cmd/vinstr (nothing written to /repo), each scenario in a fresh process, with an access-conflict oracle (variable written and touched by both goroutines, no locks in the package). Each thread must return its solo result under every schedule. A separate free-running pass of the same bodies under the Go race detector classifies every report by function signature.",
    note="Interleavings are sequentially consistent at the granularity of the scheduling points; weak-memory effects are only sampled by the race-detector pass. Preemption bound completed: 2 (quick) / 4 (thorough) for pairs. The access-level pass leaves out the calls that hit the listed accumulator finding; if the package starts using locks/atomics the access-conflict oracle stands down (never a false alarm) and the race pass remains.",
    technique="stateless model checking with a controlled scheduler (environment-call and instrumented-access scheduling points), preemption bounding + separate race-detector pass", ref="3 C09"),
  "C05": dict(level="exploration",
